@@ -1099,10 +1099,10 @@ func (r *runner) openRetry() error {
 	return r.open(false)
 }
 
-func genConcFault(seed uint64, g *gen) *Case {
+func genConcFault(prop string, seed uint64, g *gen) *Case {
 	c := genConcCrash(seed, g)
 	r := g.r
-	c.Prop = "C08"
+	c.Prop = prop
 	c.Faults = nil
 	g.faultPlan(c, "C08")
 	for _, f := range c.Faults {
@@ -1122,7 +1122,7 @@ func genConcFault(seed uint64, g *gen) *Case {
 		at := r.intn(len(c.Clients[ci]) + 1)
 		c.Clients[ci] = append(c.Clients[ci][:at:at], Op{K: "close"})
 	}
-	if r.p(0.3) {
+	if r.p(0.3) || prop == "C11" {
 		// Close racing a transaction commit that is being retried: client 0
 		// commits an explicit transaction while manifest syncs fail, another
 		// client sleeps a little and closes the DB
